@@ -152,6 +152,16 @@ def generate():
     items.append(str_def("src_stable_reserve", norm(function_body(sh, r"inline void stable_reserve\s*\(\s*T& string,"))))
     rsh = strip_comments(read(RSH))
     items.append(str_def("src_string_move_assign", norm(function_body(rsh, r"operator=\s*\(\s*MonotonicBasicString&& other\s*\)"))))
+    S = r"inline MonotonicBasicString"
+    items.append(str_def("src_string_ctor_move_alloc", norm(ctor_text(rsh, S + r"\s*\(\s*MonotonicBasicString&& other,"))))
+    items.append(str_def("src_string_ctor_std_alloc", norm(ctor_text(rsh, S + r"\s*\(\s*const ::std::basic_string<C, CH, A>& other,"))))
+    items.append(str_def("src_string_assign_std", norm(function_body(
+        rsh, S + r"& operator=\s*\(\s*const ::std::basic_string<C, ::std::char_traits<C>, A>& other"))))
+    items.append(str_def("src_string_copy_assign", norm(function_body(rsh, S + r"& operator=\s*\(\s*const MonotonicBasicString& other"))))
+    items.append(str_def("src_string_swap", norm(function_body(rsh, r"inline void swap\s*\(\s*MonotonicBasicString& other"))))
+    items.append(str_def("src_string_resize_default_init", norm(function_body(rsh, r"inline void __resize_default_init\s*\("))))
+    m = re.search(r"using Base::Base;\s*using Base::operator=;", rsh)
+    items.append("def stringInheritsBaseAssign : Bool := %s" % ("true" if m else "false"))
     items.append(str_def("src_string_construct_with_meta",
                          norm(function_body(rsh, r"static void construct_with_allocation_metadata\s*\("))))
     c = probe([], {
